@@ -42,6 +42,9 @@ const VIRTUAL_BOUND: u64 = 999_983;
 /// bound of the two rows planted around an unconditional `resetRandom;` at the very top
 const RESET_BOUND: u64 = 500_009;
 
+/// bound drawn by the bound expression of the body-less loop planted as first statement
+const EMPTY_BOUND: u64 = 700_001;
+
 struct Plan {
     /// row ids of the two planted rows `(random(RESET_BOUND))` / resetRandom / `(random(RESET_BOUND))`
     reset_pair: Option<(usize, usize)>,
@@ -50,12 +53,14 @@ struct Plan {
     /// rows that carry `bits(2, random(B+1))` in RB0 RB1
     bits_probe: Vec<usize>,
     virtual_probe: bool,
+    /// the program starts with a body-less loop whose bound draws with EMPTY_BOUND
+    empty_loop: bool,
 }
 
 /// Add the probe inputs RP0 (64 bit) and RB0, RB1 (1 bit each) in front of the header; rows
 /// that carry a random probe lose their X / C entries, so that one evaluation is one item.
 fn plant(b: &mut Built, ch: &mut Ch) -> Plan {
-    let mut plan = Plan { reset_pair: None, value_probe: vec![], bits_probe: vec![], virtual_probe: false };
+    let mut plan = Plan { reset_pair: None, value_probe: vec![], bits_probe: vec![], virtual_probe: false, empty_loop: false };
     for (k, (n, bits)) in [("RP0", 64usize), ("RB0", 1), ("RB1", 1)].iter().enumerate() {
         b.sigs.insert(k, Sig { name: n.to_string(), bits: *bits, kind: Kind::In(InVal::Val(0)) });
         b.prog.header.insert(k, n.to_string());
@@ -99,6 +104,15 @@ fn plant(b: &mut Built, ch: &mut Ch) -> Plan {
         }
     }
     go(&mut b.prog.stmts, ch, &mut plan, &cols);
+    // In a quarter of the cases the first statement (after the planted reset pair, if any) is a loop without any statement in
+    // its body whose bound draws: `loop(ez, (random(EMPTY_BOUND) & 1))` / `end loop`. The bound
+    // of a loop is evaluated once on entry whatever the body holds, so the run's log must show
+    // exactly one draw with that bound.
+    if ch.chance(1, 4) {
+        let bound = Expr::bin(BinOp::And, Expr::Random(Box::new(Expr::lit(EMPTY_BOUND))), Expr::lit(1));
+        b.prog.stmts.insert(0, Stmt::Loop("ez".into(), bound, vec![]));
+        plan.empty_loop = true;
+    }
     // In a third of the cases the program starts with: a row showing random(RESET_BOUND),
     // `resetRandom;`, a second such row. Both are executed unconditionally and the first draw
     // of the run is the first row's, so the second row must show the same value.
@@ -130,7 +144,7 @@ impl Property for C17 {
         "C17"
     }
     fn rule(&self) -> &'static str {
-        "profile `random`: flow programs with random(e) in row entries, let, bounds, ite conditions and branches, nested in its own argument, in a virtual signal; bounds >= 2 by construction (2, small, (e&7)+2, 2^k up to 2^62); resetRandom at any statement position; seeds {0, 1, u64::MAX, random} forced through the seed hook; planted probes: `(random(B_r))` in a 64-bit input and `bits(2, random(B_r+1))` in two 1-bit inputs with a bound unique to the source row r (such rows have no X/C, so one evaluation is one item), `declare VR = random(999983)`, and random(7919) in unselected branches of constant-condition ite. Oracle (self-consistent, on the crate's own event log): every random evaluation is exactly one generator draw (GenDraw, Draw pairs), 0 <= value < bound; after every Reset the values repeat those drawn from the start of the run over the longest common prefix of the bound sequences; the same seed gives the same log; no draw with bound 7919 (lazy ite); for each probed row the number of draws with its bound equals the number of its items, and each item shows exactly the drawn value (resp. its two low bits): one draw per evaluation, used as if it were a literal; VR is drawn once per checked row and shows the drawn value; and a straight-line control program that performs the same sequence of random(bound) / resetRandom with the same seed draws exactly the same values (the draws are those of the run's generator, in order). Non-trivial: >= 2 draws and (a reset followed by a draw, or a checked probe, or a lazy sentinel present); distinct by source + signals + driver + seed."
+        "profile `random`: flow programs with random(e) in row entries, let, bounds, ite conditions and branches, nested in its own argument, in a virtual signal; bounds >= 2 by construction (2, small, (e&7)+2, 2^k up to 2^62); resetRandom at any statement position; seeds {0, 1, u64::MAX, random} forced through the seed hook; planted probes: `(random(B_r))` in a 64-bit input and `bits(2, random(B_r+1))` in two 1-bit inputs with a bound unique to the source row r (such rows have no X/C, so one evaluation is one item), `declare VR = random(999983)`, a body-less `loop(ez, (random(700001) & 1))` as first statement (its bound is evaluated once on entry: exactly one draw with that bound), and random(7919) in unselected branches of constant-condition ite. Oracle (self-consistent, on the crate's own event log): every random evaluation is exactly one generator draw (GenDraw, Draw pairs), 0 <= value < bound; after every Reset the values repeat those drawn from the start of the run over the longest common prefix of the bound sequences; the same seed gives the same log; no draw with bound 7919 (lazy ite); for each probed row the number of draws with its bound equals the number of its items, and each item shows exactly the drawn value (resp. its two low bits): one draw per evaluation, used as if it were a literal; VR is drawn once per checked row and shows the drawn value; and a straight-line control program that performs the same sequence of random(bound) / resetRandom with the same seed draws exactly the same values (the draws are those of the run's generator, in order). In a third of the cases two or three iterators over the same test are alive at once and stepped alternately by a generated schedule (same seed, same script): each yields exactly the items of the run on its own (every run has its own generator). Non-trivial: >= 2 draws and (a reset followed by a draw, or a checked probe, or a lazy sentinel present); distinct by source + signals + driver + seed."
     }
     fn cases(&self, tier: Tier) -> u64 {
         match tier {
@@ -139,7 +153,7 @@ impl Property for C17 {
         }
     }
     fn required_classes(&self) -> Vec<&'static str> {
-        vec!["draws>=2", "reset-then-draw", "bound=2", "bound>=2^32", "virtual-probe-checked", "seed=0", "seed=max", "replayed-prefix>=2", "value-probe-checked", "bits-probe-checked", "lazy-sentinel-planted", "probe-in-loop", "control-program-compared", "planted-reset-checked"]
+        vec!["draws>=2", "reset-then-draw", "bound=2", "bound>=2^32", "virtual-probe-checked", "seed=0", "seed=max", "replayed-prefix>=2", "value-probe-checked", "bits-probe-checked", "lazy-sentinel-planted", "probe-in-loop", "control-program-compared", "planted-reset-checked", "empty-loop-bound-draw-checked", "interleaved-iterators-compared"]
     }
     fn run(&self, s: &Streams) -> CaseOut {
         let mut out = CaseOut::new();
@@ -252,6 +266,43 @@ impl Property for C17 {
             out.fail("c17:same-seed-different-draws", "two runs with the same seed and script produced different random logs");
             return out;
         }
+        // --- "the run's generator": two or three iterators over the same test, alive at the same
+        // time and stepped alternately, each draw from their own generator - every one of them
+        // yields exactly the items of the run above (same seed, same script)
+        if dch.chance(1, 3) {
+            let n = 2 + dch.upto(2);
+            let sched: Vec<usize> = (0..dch.upto(60)).map(|_| dch.upto(n)).collect();
+            match run_interleaved(&tc, &built.sigs, &spec, n, &sched, seed, 120) {
+                Err(p) => {
+                    out.fail(p.key(), format!("constructing {n} iterators over one test panicked: {p}"));
+                    return out;
+                }
+                Ok(got) => {
+                    for (i, (items, _)) in got.iter().enumerate() {
+                        if items.len() >= 2 && f.randoms > 0 {
+                            out.class("interleaved-iterators-compared");
+                        }
+                        for (k, item) in items.iter().enumerate() {
+                            if let RealItem::Panic(p) = item {
+                                out.fail(p.key(), format!("iterator {i} of {n} (interleaved) panicked at item {k}: {p}"));
+                                return out;
+                            }
+                            if real.items.get(k) != Some(item) {
+                                out.fail(
+                                    "c17:iterators-share-a-generator",
+                                    format!(
+                                        "iterator {i} of {n} over the same test (stepped alternately, schedule {sched:?}, same seed and script): item {k} is {}, the run on its own yields {:?}",
+                                        item.short(),
+                                        real.items.get(k).map(|x| x.short())
+                                    ),
+                                );
+                                return out;
+                            }
+                        }
+                    }
+                }
+            }
+        }
         // --- planted probes
         let tag_of = |r: &RealRow| match r.inputs.iter().find(|e| e.0 == "TAG").map(|e| e.1) {
             Some(InVal::Val(t)) => Some((t - 1) as usize),
@@ -274,6 +325,17 @@ impl Property for C17 {
                     );
                     return out;
                 }
+            }
+        }
+        if plan.empty_loop && (real.ended || !real.items.is_empty()) {
+            let n = all.iter().filter(|(b, _)| *b == EMPTY_BOUND as i64).count();
+            out.class("empty-loop-bound-draw-checked");
+            if n != 1 {
+                out.fail(
+                    "c17:empty-loop-bound-draws",
+                    format!("the program starts with `loop(ez, (random({EMPTY_BOUND}) & 1))` / `end loop`: its bound is evaluated once on entry, so exactly one draw with that bound is due; the run's log has {n}"),
+                );
+                return out;
             }
         }
         if clean {
